@@ -341,7 +341,7 @@ def _unit_of_token(token: str) -> Fraction:
 
 class C10Spec:
     """A frame array to write and how to write it; everything needed to reproduce is in describe()."""
-    def __init__(self, rng: random.Random):
+    def __init__(self, rng: random.Random, large: bool = False):
         self.flags = set()
         self.method = rng.choice(METHODS)
         self.field_width = genlas._pick_weighted(rng, [(16, 3), (rng.randint(2, 24), 6), (rng.randint(0, 1), 0.4), (40, 0.3)])
@@ -351,6 +351,13 @@ class C10Spec:
         self.mode = rng.choice(WRITE_MODES)
         k = genlas._pick_weighted(rng, [(1, 1), (2, 2), (rng.randint(1, 6), 6), (rng.randint(7, 15), 0.5)])
         self.n = genlas._pick_weighted(rng, [(1, 1), (2, 1), (rng.randint(1, 10), 6), (rng.randint(11, 40), 0.5)])
+        if large:
+            # a long log (well over 64 KiB of data rows): anything that buffers, batches or chunks rows shows only here
+            k = rng.randint(3, 5)
+            self.n = rng.randint(1200, 2600)
+            self.field_width = max(self.field_width, 12)
+            self.flags.discard('field-width-below-2')
+            self.float_format = rng.choice(['.1f', '.3f', '.4f', '.8e', '.12g'])
         if self.mode == 'chunked' and self.n < 2:
             self.mode = 'three'
         used = set()
@@ -411,7 +418,12 @@ class C10Spec:
     def _make_x_axis(self, rng, ch) -> None:
         """The reader refuses duplicate index values, so the X axis must print as distinct, well separated numbers."""
         for attempt in range(30):
-            if attempt == 29:
+            if self.n > 200 and attempt < 29:
+                # a long log: one index value per frame, whole numbers in steps of one (distinct under every format used)
+                ch['dims'], ch['dtype'] = (1,), 'float64'
+                start = rng.randint(-5000, 50000)
+                data = np.array([float(start + i) for i in range(self.n)], dtype='float64').reshape((self.n, 1))
+            elif attempt == 29:
                 # always distinct under every format used here: powers of two, one value per frame
                 ch['dims'] = (1,)
                 ch['dtype'] = 'float64' if not ch['dtype'].startswith('float') or self.n > 100 else ch['dtype']
@@ -591,7 +603,7 @@ def c10_check_values(spec: C10Spec, rows, las) -> list:
 
 
 def c10_case(seed: int, index: int, stats: dict, verbose: bool = False):
-    spec = C10Spec(_rng(seed, 'c10', index))
+    spec = C10Spec(_rng(seed, 'c10', index), large=(index % 20 == 7))
     for flag in sorted(spec.flags):
         if 'c10-' + flag in KNOWN_FINDINGS:
             stats['c10-' + flag] = stats.get('c10-' + flag, 0) + 1
